@@ -41,6 +41,7 @@ STEP_KEYS = ("steps",)
 def generate(seed, tier, index):
     rng = random.Random(seed)
     thorough = tier == "thorough"
+    G.SPICY_NAMES[0] = rng.random() < 0.2  # property / element / group names with blanks, markup and non-ASCII characters
     ndev = rng.choice([1, 2, 2, 3])
     specs = [G.gen_device(rng, f"DEV{i}", kinds=c01.KINDS, spicy=rng.random() < 0.6, max_depth=3, all_min_max=rng.random() < 0.5)
              for i in range(ndev)]
